@@ -74,7 +74,7 @@ def ownership_rules(chk, repo, rid, text=None):
     return n
 
 
-def defassign_rules(chk, repo, rid, modules, facts=None):
+def defassign_rules(chk, repo, rid, modules, facts=None, only=None):
     """definite assignment over whole modules: no read of a local that some path leaves unbound (a sweep / iteration
     loop may run zero times unless its range is provably non-empty under the documented lower bounds `facts`)"""
     from .. import defassign
@@ -85,7 +85,7 @@ def defassign_rules(chk, repo, rid, modules, facts=None):
                   'do not visit')
     nfun = nreads = 0
     for q, fi in sorted(repo.funcs.items()):
-        if fi.module not in modules:
+        if fi.module not in modules or (only is not None and q not in only):
             continue
         d = defassign.DA(fi.node)
         d.lower.update((facts or {}).get(q, {}))
